@@ -39,6 +39,17 @@ let op_iter t =
         S.concat "" (List.map (fun (e : M.elem) -> elem_str e (is e.M.e_off + 2) (is e.M.e_off + 2 + is e.M.e_len)) l) in
   model ^ " ## " ^ spec
 
+(* body of the k-th element of a well-formed prefix of the byte list; none: the empty body *)
+let kth_body (bytes : M.z list) (k : int) : M.z list =
+  let a = Array.of_list bytes in
+  let n = Array.length a in
+  let rec go off k =
+    if off + 2 > n then [] else
+    let l = is a.(off + 1) in
+    if off + 2 + l > n then [] else
+    if k = 0 then Array.to_list (Array.sub a (off + 2) l) else go (off + 2 + l) (k - 1) in
+  go 0 k
+
 let parse_op (o : S.t) : M.tag_op =
   let arg = S.sub o 2 (S.length o - 2) in
   match o.[0] with
@@ -58,7 +69,13 @@ let op_tagops t =
   let st = ref M.tags_empty in
   let ref_l = ref (Some []) in
   for i = 2 to Array.length t - 1 do
-    let o = parse_op t.(i) in
+    let o =
+      if t.(i).[0] = 'D' then
+        (* D:<num>:<k>: the harness hands the library a pointer INTO the list; for model and Spec it is an add of that element's body *)
+        let arg = S.sub t.(i) 2 (S.length t.(i) - 2) in
+        let j = S.index arg ':' in
+        M.OpAdd (z_of_string (S.sub arg 0 j), kth_body !st.M.t_bytes (int_of_string (S.sub arg (j + 1) (S.length arg - j - 1))))
+      else parse_op t.(i) in
     (match M.step !st o with
      | M.Done (s', r) -> st := s';
        Buffer.add_string b (sp " %s,%s,%s" (ret_str r) (zs s'.M.t_len) (hex_of_bytes s'.M.t_bytes))
